@@ -62,6 +62,17 @@ func (w WLCase) build() (*spg.WLRecipe, error) {
 		r.SeparatorChar = w.Sep.Char
 	case "sf":
 		r.SeparatorFunc = spg.NewSFFunction(toSpg(*w.Sep.Recipe))
+	case "custom0":
+		// a caller-written separator function: draws like the library does
+		// but (conservatively) claims no entropy
+		cr := toSpg(*w.Sep.Recipe)
+		r.SeparatorFunc = func() (string, spg.FloatE) {
+			p, err := cr.Generate()
+			if err != nil {
+				return "", 0
+			}
+			return p.String(), 0
+		}
 	default:
 		f, ok := presetFuncs[w.Sep.Kind]
 		if !ok {
@@ -84,14 +95,14 @@ func (w WLCase) sepModel() (vals []string, entropy float64, retry bool) {
 		return []string{w.Sep.Char}, 0, false
 	case "SFNone":
 		return []string{""}, 0, false
-	case "sf":
+	case "sf", "custom0":
 		cr = w.Sep.Recipe
 	default:
 		m := presetModel[w.Sep.Kind]
 		cr = &m
 	}
 	ab := cr.Alphabet()
-	if cr.Length < 1 || len(ab) == 0 || cr.Count().Sign() == 0 {
+	if cr.Length < 1 || len(ab) == 0 || cr.Count().Sign() == 0 || sepRefused(*cr) {
 		return []string{""}, 0, false
 	}
 	// all valid strings of the separator recipe
@@ -119,6 +130,16 @@ func (w WLCase) sepModel() (vals []string, entropy float64, retry bool) {
 	}
 	total := new(big.Int).Exp(big.NewInt(int64(len(ab))), big.NewInt(int64(cr.Length)), nil)
 	return vals, math.Log2(float64(len(vals))), total.Cmp(big.NewInt(int64(len(vals)))) != 0
+}
+
+// sepRefused reports whether Generate refuses the separator recipe at the
+// default retry budget (all 200 attempts fail with probability > 1e-9); such a
+// separator function yields "" with zero entropy.
+func sepRefused(cr ref.CharRecipe) bool {
+	ab := cr.Alphabet()
+	cnt, _ := new(big.Float).SetInt(cr.Count()).Float64()
+	p := cnt / math.Pow(float64(len(ab)), float64(cr.Length))
+	return math.Pow(1-p, 200) > 1e-9
 }
 
 // capSets returns the sets of capitalised positions of a scheme; known=false
@@ -262,7 +283,9 @@ func (w WLCase) cellSize() int64 {
 func (w WLCase) entropyModel() float64 {
 	kept, uncap := ref.Normalise(w.Words)
 	_, se, _ := w.sepModel()
-	if w.Sep.Kind == "sf" || presetModel[w.Sep.Kind].Length > 0 {
+	if w.Sep.Kind == "custom0" {
+		se = 0
+	} else if w.Sep.Kind == "sf" || presetModel[w.Sep.Kind].Length > 0 {
 		// separator functions report the entropy of their own recipe
 		var cr ref.CharRecipe
 		if w.Sep.Kind == "sf" {
@@ -270,7 +293,7 @@ func (w WLCase) entropyModel() float64 {
 		} else {
 			cr = presetModel[w.Sep.Kind]
 		}
-		if cr.Length >= 1 && len(cr.Alphabet()) > 0 && cr.Count().Sign() > 0 {
+		if cr.Length >= 1 && len(cr.Alphabet()) > 0 && cr.Count().Sign() > 0 && !sepRefused(cr) {
 			se = ref.Log2Big(cr.Count())
 		} else {
 			se = 0
@@ -307,6 +330,9 @@ func wlSeps() []Sep {
 		{Kind: "sf", Recipe: &ref.CharRecipe{Length: 2, AllowChars: "xé"}},
 		{Kind: "sf", Recipe: &ref.CharRecipe{Length: 0, AllowChars: "ab"}},
 		{Kind: "SFDigitsNoAmbiguous1"},
+		// refused by Generate (1 of 13 characters satisfies it... p = 3/33) yet Entropy() > 0: separator is "" and must count 0 bits
+		{Kind: "sf", Recipe: &ref.CharRecipe{Length: 1, AllowChars: "abcdefghijklmnopqrstuvwxyzABCD", RequireSets: []string{"123"}}},
+		{Kind: "custom0", Recipe: &ref.CharRecipe{Length: 1, AllowChars: "xy"}},
 	}
 }
 
